@@ -579,6 +579,29 @@ pub fn run_c05(tier: Tier) -> i32 {
             n
         })
         .sum();
+    // (c2) every valid frame (not only the sampled ones) cut short at every position with its
+    // remaining length rewritten to fit: complete frames whose inner lengths (strings,
+    // property blocks, fixed-size fields) point past the end
+    let inputs_c2: u64 = frames
+        .par_iter()
+        .filter(|(f, _)| f.len() <= 129 && f[1] < 128)
+        .map(|(f, v5)| {
+            let codecs: [Codec; 2] = if *v5 { [Codec::C5, Codec::B5] } else { [Codec::C4, Codec::B4] };
+            let mut n = 0u64;
+            for k in 2..f.len() {
+                let mut m = f[..k].to_vec();
+                m[1] = (k - 2) as u8;
+                // followed by a PINGREQ: nothing beyond the declared frame may be consumed
+                m.extend_from_slice(&[0xc0, 0x00]);
+                for c in codecs {
+                    check_decode(&ctx, c, &m, 1 << 20);
+                    n += 1;
+                }
+            }
+            n
+        })
+        .sum();
+    let inputs_c = inputs_c + inputs_c2;
     // (d) streams of 1-3 frames under every split into <= 3 chunks
     let short: Vec<&(Vec<u8>, bool)> = frames.iter().filter(|(f, _)| f.len() <= 24).collect();
     let sstep = if tier == Tier::Quick { (short.len() / 40).max(1) } else { (short.len() / 300).max(1) };
@@ -1207,7 +1230,8 @@ fn expect_in_broker_c5(p: &c5::Packet) -> Vec<String> {
             "Publish {{ dup: {:?}, qos: {:?}, pkid: {}, retain: {:?}, topic: {:?}, payload: {:?} }}",
             p.dup, p.qos, p.pkid, p.retain, p.topic, p.payload
         )],
-        c5::Packet::Subscribe(s) => broker_view("Subscribe", s.pkid, s.filters.iter().map(|f| format!("Filter {{ path: {:?}, qos: {:?},", f.path, f.qos)).collect()),
+        // (the subscription options as well: both libraries name the fields alike)
+        c5::Packet::Subscribe(s) => broker_view("Subscribe", s.pkid, s.filters.iter().map(|f| format!("{f:?}")).collect()),
         c5::Packet::Unsubscribe(u) => vec![format!("Unsubscribe {{ pkid: {}, filters: {:?} }}", u.pkid, u.filters)],
         c5::Packet::Connect(c, ..) => vec![format!("Connect {{ keep_alive: {}, client_id: {:?}, clean_session: {:?} }}", c.keep_alive, c.client_id, c.clean_start)],
         c5::Packet::PubAck(a) => broker_view("PubAck", a.pkid, vec![]),
